@@ -302,19 +302,41 @@ func c10Array(t *rapid.T, l string) string {
 
 // c10Words produces a sentence as a list of words (joined by single blanks), operand types chosen independently of the symbol types
 func c10Words(t *rapid.T, l string, depth int) []string {
+	return c10WordsOver(t, l, depth, c10Symbols)
+}
+
+// symbols of the places store, for the predicate of a sub-query that ranges over places (set symbols in scalar
+// positions, dotted paths back into people, unknown names included)
+var c10PlaceSymbols = []string{"id", "name", "n", "businesses", "people", "people.sa", "people.ia", "people.roles", "people.boss.sa", "people.tags.k", "people.places.name", "zz", "name.x"}
+
+// c10SubQuery renders "from <entity set> where <predicate over that entity type's symbols> <tail>"
+func c10SubQuery(t *rapid.T, l string, depth int, sym string) string {
+	inner := c10Symbols
+	switch rapid.IntRange(0, 4).Draw(t, l+"_from") {
+	case 0, 1:
+		sym, inner = "places", c10PlaceSymbols
+	case 2:
+		sym = "peers"
+	case 3:
+		sym, inner = "boss.places", c10PlaceSymbols
+	}
+	return "from " + sym + " where " + strings.Join(append(c10WordsOver(t, l+"sq", depth-1, inner), c10TailOver(t, l+"sqt", inner)...), " ")
+}
+
+func c10WordsOver(t *rapid.T, l string, depth int, symbols []string) []string {
 	if depth > 0 && rapid.IntRange(0, 2).Draw(t, l+"_conn") == 0 {
 		switch rapid.IntRange(0, 3).Draw(t, l+"_ck") {
 		case 0:
-			return append(append(c10Words(t, l+"l", depth-1), "and"), c10Words(t, l+"r", depth-1)...)
+			return append(append(c10WordsOver(t, l+"l", depth-1, symbols), "and"), c10WordsOver(t, l+"r", depth-1, symbols)...)
 		case 1:
-			return append(append(c10Words(t, l+"l", depth-1), "or"), c10Words(t, l+"r", depth-1)...)
+			return append(append(c10WordsOver(t, l+"l", depth-1, symbols), "or"), c10WordsOver(t, l+"r", depth-1, symbols)...)
 		case 2:
-			return append(append([]string{"not", "("}, c10Words(t, l+"n", depth-1)...), ")")
+			return append(append([]string{"not", "("}, c10WordsOver(t, l+"n", depth-1, symbols)...), ")")
 		default:
-			return append(append([]string{"("}, c10Words(t, l+"p", depth-1)...), ")")
+			return append(append([]string{"("}, c10WordsOver(t, l+"p", depth-1, symbols)...), ")")
 		}
 	}
-	sym := pickS(t, l+"_sym", c10Symbols)
+	sym := pickS(t, l+"_sym", symbols)
 	var lhs string
 	switch rapid.IntRange(0, 9).Draw(t, l+"_lhs") {
 	case 0, 1, 2, 3, 4:
@@ -325,9 +347,12 @@ func c10Words(t *rapid.T, l string, depth int) []string {
 		lhs = "allOf(" + sym + ")"
 	case 7:
 		lhs = "count(" + sym + ")"
+		if depth > 0 && rapid.Bool().Draw(t, l+"_sq7") {
+			lhs = "count(" + c10SubQuery(t, l, depth, sym) + ")"
+		}
 	case 8:
 		if depth > 0 {
-			lhs = "count(from " + sym + " where " + strings.Join(append(c10Words(t, l+"sq", depth-1), c10Tail(t, l+"sqt")...), " ") + ")"
+			lhs = "count(" + c10SubQuery(t, l, depth, sym) + ")"
 		} else {
 			lhs = "count(" + sym + ")"
 		}
@@ -338,7 +363,7 @@ func c10Words(t *rapid.T, l string, depth int) []string {
 			return []string{"isEmpty(" + sym + ")"}
 		case 1:
 			if depth > 0 {
-				return []string{"isEmpty(from " + sym + " where " + strings.Join(append(c10Words(t, l+"sq", depth-1), c10Tail(t, l+"sqt")...), " ") + ")"}
+				return []string{"isEmpty(" + c10SubQuery(t, l, depth, sym) + ")"}
 			}
 			return []string{sym}
 		case 2:
@@ -368,13 +393,15 @@ func c10Words(t *rapid.T, l string, depth int) []string {
 	}
 }
 
-func c10Tail(t *rapid.T, l string) []string {
+func c10Tail(t *rapid.T, l string) []string { return c10TailOver(t, l, c10Symbols) }
+
+func c10TailOver(t *rapid.T, l string, symbols []string) []string {
 	var out []string
 	if rapid.IntRange(0, 3).Draw(t, l+"_sort") == 0 {
 		out = append(out, "sort", "by")
 		n := rapid.IntRange(1, 6).Draw(t, l+"_ns")
 		for i := 0; i < n; i++ {
-			w := pickS(t, fmt.Sprintf("%s_ss%d", l, i), c10Symbols)
+			w := pickS(t, fmt.Sprintf("%s_ss%d", l, i), symbols)
 			if i > 0 {
 				out = append(out, ",")
 			}
